@@ -97,6 +97,14 @@ CHECKS = {
             "Trusted: hook H1 gates cover every access to state shared between threads (thread_id cell, shared word, queue maps); sequential consistency at gate "
             "granularity; counter drift bounded; quick explores the 3-thread level 2 from every third state.",
             "DESIGN.md §3 C05"),
+    "C08": ("exploration",
+            "small-scope exhaustive enumeration of control programs (capture site x use x dynamic-wind nesting x error placement x handler nesting) run on the real engine under three configurations and compared with a CEK reference machine that has first-class re-entrant continuations and the R7RS wind list",
+            "Every program of the grammar: escapes (9 uses incl. apply / tail / nested) from inside 0..2 winds to outside 0..2 winds with distinct and shared thunks; "
+            "re-entry of an extent from outside 1..3 times at 5 capture sites; sibling extents; re-entry with pending arguments and inside map; generators; errors "
+            "in body / before / after / handler under nested winds and nested handlers; handler-continuation interplay. Trace, value and ok/err must equal the "
+            "reference under JIT on, JIT off and with a forced full collection at every allocation (continuations as GC roots).",
+            "Trusted: vp/ref_scheme.py. Continuations are delimited per top-level form, so each program is one form; reset/shift is not in the reference yet.",
+            "DESIGN.md §3 C08"),
 }
 
 NOT_YET = {}
